@@ -289,7 +289,7 @@ def timer_shape(prog, rep):
                 continue
             if meth == 'reset':
                 param = f.params[1] if len(f.params) > 1 else None
-                if not (calls[0].args and src_of(calls[0].args[0]) == param):
+                if not (calls[0].args and common.unalias(f.node, calls[0].args[0]) == param):
                     why = 'delayed_call.reset is not called with the requested delay'
                     continue
             types = set()
@@ -301,7 +301,7 @@ def timer_shape(prog, rep):
                             src_of(n.value.func).endswith('callLater') and \
                             any(isinstance(tg, ast.Attribute) and tg.attr == 'delayed_call' for tg in n.targets):
                         a = n.value.args
-                        if len(a) >= 2 and src_of(a[0]) == (f.params[1] if len(f.params) > 1 else None) \
+                        if len(a) >= 2 and common.unalias(f.node, a[0]) == (f.params[1] if len(f.params) > 1 else None) \
                                 and src_of(a[1]) == 'self.callable':
                             rearm = True
             if not (need <= types or '*' in types or 'Exception' in types):
